@@ -288,12 +288,40 @@ inductive Tail where
 deriving DecidableEq, Repr
 
 inductive FErr where
-  | missingFinal | badType | decrypt | finalPlaintext | trailing | shortFrame
+  | missingFinal | badType | decrypt | finalPlaintext | trailing | shortFrame | noEof
 deriving DecidableEq, Repr
 
 def FErr.name : FErr → String
   | .missingFinal => "missing-final" | .badType => "bad-type" | .decrypt => "decrypt"
   | .finalPlaintext => "final-plaintext" | .trailing => "trailing" | .shortFrame => "short-frame"
+  | .noEof => "no-eof"
+
+/-! ### the end-of-stream check over the `io.Reader` contract
+
+`requireEncryptedArchiveEOF` issues ONE `Read` into a one-byte buffer and inspects `(n, err)`. The contract
+allows a reader to return `n > 0` TOGETHER with `io.EOF` (the last data and the end of stream in one call),
+to return fewer bytes than asked, and even `(0, nil)`. `ReadRes` is such a result (`eof` = `err == io.EOF`;
+any other error aborts and is not modelled), `ValidRead rest req` says when the contract allows it on a stream
+with `rest` bytes left. The code looks at `n` FIRST: `n > 0` is trailing data whatever `err` says. -/
+structure ReadRes where
+  n   : Nat
+  eof : Bool
+deriving DecidableEq, Repr
+
+def ValidRead (rest : Bytes) (req : Nat) (r : ReadRes) : Prop :=
+  r.n ≤ req ∧ r.n ≤ rest.length ∧ (r.eof = true → r.n = rest.length)
+
+inductive EofVerdict where
+  | clean | trailing | noEof
+deriving DecidableEq, Repr
+
+/-- `requireEncryptedArchiveEOF`: `n > 0` → trailing data; else `err == nil` → "did not end"; else EOF → clean -/
+def requireEOF (r : ReadRes) : EofVerdict :=
+  if r.n > 0 then .trailing else if r.eof then .clean else .noEof
+
+/-- the variant that inspects `err` before `n` (NOT what the code does; kept to show why the order matters) -/
+def requireEOFErrFirst (r : ReadRes) : EofVerdict :=
+  if r.eof then .clean else if r.n > 0 then .trailing else .noEof
 
 /-- `encryptedArchiveWriter`: one data frame per chunk, index counting from `i`, then the empty final frame. -/
 def writeFrom {K H C : Type} (A : Aead K (Aad H) C) (k : K) (hh : H) : Nat → List Bytes → List (Frame C)
@@ -323,6 +351,38 @@ def readFrames {K H C : Type} (A : Aead K (Aad H) C) (k : K) (hh : H) : Nat → 
           else if rest ≠ [] ∨ tail ≠ Tail.clean then .error .trailing
           else .ok []
         else consChunk p (readFrames A k hh (i + 1) rest tail)
+
+/-- what the one-byte probe after the final frame returns, as a function of "nothing follows the final frame" -/
+abbrev Probe := Bool → ReadRes
+
+/-- readers that deliver data while there is data and `(0, EOF)` at the end (bytes.Reader, files, one-byte,
+half, data-with-EOF readers all answer the probe like this) -/
+def directProbe : Probe := fun nothingFollows => if nothingFollows then ⟨0, true⟩ else ⟨1, false⟩
+
+/-- a reader that answers the first call at every offset with `(0, nil)` -/
+def zeroProbe : Probe := fun _ => ⟨0, false⟩
+
+/-- a probe the contract allows: while bytes follow, it cannot claim `(0, EOF)` -/
+def Probe.Valid (p : Probe) : Prop := ¬ ((p false).n = 0 ∧ (p false).eof = true)
+
+/-- `readFrames` with the end-of-stream check made explicit: the final frame is followed by ONE probe read whose
+result is judged by `requireEOF`. `readFrames` is the instance with `directProbe` (`readFramesVia_direct`). -/
+def readFramesVia {K H C : Type} (A : Aead K (Aad H) C) (k : K) (hh : H) (probe : Probe) :
+    Nat → List (Frame C) → Tail → Except FErr (List Bytes)
+  | _, [], .partialBody => .error .shortFrame
+  | _, [], _ => .error .missingFinal
+  | i, f :: rest, tail =>
+    if f.typ ≠ frameData ∧ f.typ ≠ frameFinal then .error .badType
+    else match A.openIt k ⟨hh, i, f.typ⟩ f.ct with
+      | none => .error .decrypt
+      | some p =>
+        if f.typ = frameFinal then
+          if p ≠ [] then .error .finalPlaintext
+          else match requireEOF (probe (decide (rest = [] ∧ tail = Tail.clean))) with
+            | .clean => .ok []
+            | .trailing => .error .trailing
+            | .noEof => .error .noEof
+        else consChunk p (readFramesVia A k hh probe (i + 1) rest tail)
 
 /-- The free (symbolic) AEAD: a ciphertext *is* the triple it seals. -/
 def symAead (K A : Type) [DecidableEq K] [DecidableEq A] : Aead K A (K × A × Bytes) where
@@ -443,6 +503,26 @@ def verifyGraphs {D R σ : Type} [DecidableEq D] (E : LoadEnv D R σ) (codec : N
     | none => false
     | some _ => verifyGraphs E codec dir gs
 
+/-! ### the record-level preflight of `verifyCollectionFragments` (duplicate ids, dangling endpoints)
+
+`nodeIDs := newNodeIDResolver(..)` is created inside the loop over graphs: its state is a function of the
+current graph only (`LoadEnv.init` is handed to every graph afresh by `verifyGraphs`). A node record `put`s
+its source id (a repeated id is refused), an edge record `resolve`s both endpoints against the ids seen so far
+in THIS graph. The numeric / fallback split of `nodeIDResolver` is an implementation detail of one set of ids. -/
+inductive IdRec where
+  | node (id : Str)
+  | edge (s e : Str)
+deriving DecidableEq, Repr
+
+def idCheck (seen : List Str) (_ : Phase) : IdRec → Option (List Str)
+  | .node id => if id ∈ seen then none else some (id :: seen)
+  | .edge s e => if s ∈ seen ∧ e ∈ seen then some seen else none
+
+def nodeIdsOf : List IdRec → List Str
+  | [] => []
+  | .node id :: rs => id :: nodeIdsOf rs
+  | .edge _ _ :: rs => nodeIdsOf rs
+
 inductive Ev (R : Type) where
   | verifiedAll
   | assertSchema (g : Str)
@@ -470,6 +550,49 @@ def graphBatches {D R σ : Type} (E : LoadEnv D R σ) (codec : Nat) (dir : Dir) 
   (chunksOf E.batchSize nodeRecs.length nodeRecs).map (Ev.batch g.name .nodes) ++
   (g.files.filter (fun f => decide (f.phase = .edges))).map (fun f => Ev.batch g.name .edges (recsOf E codec dir f))
 
+/-! ### `validateExtractedCollection` (encrypted unpack): the extracted files against the manifest
+
+While extracting, `unpackTarFileTracked` records (compressed bytes, sha256) of every file under its SANITISED
+entry name. Afterwards: the sanitised manifest paths (plus `manifest.json`, duplicates refused) must be exactly
+the extracted names, and EVERY manifest file entry is looked up under its path AS SPELLED IN THE MANIFEST
+(`files[fileEntry.Path]`; a miss yields the zero value: 0 bytes, empty digest) and compared with the manifest's
+size and digest. A manifest path that is not already in sanitised form therefore misses and is refused. -/
+
+def manifestName : Str := ['m', 'a', 'n', 'i', 'f', 'e', 's', 't', '.', 'j', 's', 'o', 'n']
+
+def sanitizeAll : List Str → List Str → Option (List Str)
+  | [], acc => some acc.reverse
+  | p :: ps, acc => match sanitize p with
+    | .error _ => none
+    | .ok q => if q ∈ acc then none else sanitizeAll ps (q :: acc)
+
+/-- `archivePathsFromManifest` (unsorted) -/
+def expectedPaths {D : Type} (m : Man D) : Option (List Str) :=
+  sanitizeAll (manifestName :: m.files.map (·.path)) []
+
+abbrev Tracked (D : Type) := List (Str × (Int × D))
+def Tracked.get {D : Type} (t : Tracked D) (p : Str) : Option (Int × D) := (t.find? (fun e => decide (e.1 = p))).map (·.2)
+
+def validateExtracted {D : Type} [DecidableEq D] (emptySha : D) (m : Man D) (files : Tracked D) : Bool :=
+  match expectedPaths m with
+  | none => false
+  | some exp =>
+    files.all (fun e => decide (e.1 ∈ exp)) && exp.all (fun p => (files.get p).isSome) &&
+    m.files.all (fun f => decide (((files.get f.path).getD (0, emptySha)).1 = f.cbytes) &&
+                          decide (((files.get f.path).getD (0, emptySha)).2 = f.sha))
+
+/-! ### `readManifest`: the WHOLE file is the manifest
+
+`os.ReadFile` + `json.Unmarshal(contents, &value)`: `Unmarshal` accepts exactly one JSON value surrounded by JSON
+white space (space, tab, CR, LF) and refuses anything else after it. `parseValue` is the abstract JSON value
+parser (value and the unconsumed rest). -/
+def isJsonSpace (b : Nat) : Bool := b == 0x20 || b == 0x09 || b == 0x0A || b == 0x0D
+
+def decodeWhole {M : Type} (parseValue : Bytes → Option (M × Bytes)) (bs : Bytes) : Option M :=
+  match parseValue bs with
+  | none => none
+  | some (m, rest) => if rest.all isJsonSpace then some m else none
+
 inductive LErr where
   | manifest | verify | schema | notEmpty
 deriving DecidableEq, Repr
@@ -489,5 +612,12 @@ def load {D R σ : Type} [DecidableEq D] (E : LoadEnv D R σ) (m : Man D) (dir :
   else
     ⟨.verifiedAll :: m.graphs.map (fun g => .assertSchema g.name) ++ m.graphs.map (fun g => .emptyCheck g.name) ++
       m.graphs.flatMap (graphBatches E m.codec dir), none⟩
+
+/-- `Load` from the bytes of manifest.json -/
+def loadBytes {D R σ : Type} [DecidableEq D] (E : LoadEnv D R σ) (parseValue : Bytes → Option (Man D × Bytes))
+    (manifestBytes : Bytes) (dir : Dir) : LRes R :=
+  match decodeWhole parseValue manifestBytes with
+  | none => ⟨[], some .manifest⟩
+  | some m => load E m dir
 
 end Dawgs.C20
